@@ -419,7 +419,7 @@ QuickFams == <<
   Fam({1, 2, 3}, <<2, 1>>, 2, AllLeaves, {1, 2, 3}, 2, {2}, "desc", FALSE),
   \* 6, 7: wide objects over four names (two of them dotted): order of survivors, flat and nested selectors
   Fam({1, 2, 3, 4}, <<4, 2>>, 4, {1}, {1, 2, 3, 4}, 1, {1, 2, 3}, "both", FALSE),
-  Fam({1, 2, 3, 4}, <<3, 2>>, 4, {1}, {1, 2, 3, 4}, 2, {1, 2}, "asc", FALSE),
+  Fam({1, 2, 3, 4}, <<3, 2>>, 4, {1}, {1, 3, 4}, 2, {1, 2}, "asc", FALSE),
   \* 8: flat objects with up to 5 members (three dotted names), 1-3 one-element selectors: order after several deletions
   Fam({1, 2, 3, 4, 5}, <<5>>, 5, {1}, {1, 2, 3, 4, 5}, 1, {1, 2, 3}, "both", FALSE),
   \* 9, 10: WIDE: documents with the marker member (widened by the harness) before / after / inside nested objects
